@@ -62,11 +62,11 @@ def conc_runs(ctx, jobs):
     return parallel(drive, jobs, workers=12)
 
 
-def judge(ctx, sums, label):
+def judge(ctx, sums, label, cfg="ConcTrace.cfg"):
     other = 0
     pending = sums
     for _round in range(12):
-        fails = validate_traces(ctx, "ConcTrace.tla", "ConcTrace.cfg", pending, chunk=3, timeout=1200)
+        fails = validate_traces(ctx, "ConcTrace.tla", cfg, pending, chunk=3, timeout=1200)
         pending = []
         for t, r in fails:
             line = read_line(t["path"], r["hwm"]) or "{}"
